@@ -32,27 +32,23 @@ def tree_view(fn):
     """The variant function with those static helpers inlined that take part in the map operation itself (they call the
     comparator or a notifier, allocate or free); balancing helpers, rotations and colour tests stay calls."""
     from plint.ir import walk
+    fn = fn.raw
     u = fn.unit
-    direct = set()
-    callees = {}
+    # balancing helpers (they write the balance attribute, transitively) and the predicates that only read it stay calls
+    from rules.treecommon import field_writers as _fw
+    fw = _fw(u)
+    bal = ("color", "balance_factor")
+    keep = set()
     for f in u.functions.values():
-        cs = set()
-        for b, i, s_ in f.stmts():
-            for n in walk(s_, elsewhere=True):
-                if n["k"] == "call":
-                    if n.get("callee") is None or n.get("callee") in ("p_free", "p_malloc", "p_malloc0"):
-                        direct.add(f.name)
-                    elif n.get("callee") in u.functions:
-                        cs.add(n["callee"])
-        callees[f.name] = cs
-    changed = True
-    while changed:
-        changed = False
-        for name, cs in callees.items():
-            if name not in direct and cs & direct:
-                direct.add(name)
-                changed = True
-    only = set(n for n in direct if u.functions[n].static and n != fn.name)
+        if not f.static:
+            continue
+        if any(x in fw.get(f.name, ()) for x in bal):
+            keep.add(f.name)
+            continue
+        reads = [n for (b, i, n) in f.nodes(elsewhere=True) if n["k"] == "member" and n["field"] in bal]
+        if reads and len(f.blocks) <= 8:
+            keep.add(f.name)
+    only = set(n for n, f in u.functions.items() if f.static and n not in keep and n != fn.name)
     return fn.inlined(only=only) if only else fn
 
 
